@@ -341,10 +341,17 @@ func (w *xlWorld) structText(n *types.Named) string {
 	fmt.Fprintf(&b, "/-- Go struct %s.%s -/\nstructure %s where\n", n.Obj().Pkg().Name(), n.Obj().Name(), w.structs[n])
 	for i := 0; i < st.NumFields(); i++ {
 		t, _ := w.leanType(st.Field(i).Type())
-		fmt.Fprintf(&b, "  %s : %s\n", st.Field(i).Name(), t)
+		fmt.Fprintf(&b, "  %s : %s\n", leanField(st.Field(i).Name()), t)
 	}
 	b.WriteString("  deriving DecidableEq, Repr\n\n")
 	return b.String()
+}
+
+func leanField(n string) string {
+	if leanKeywords[n] {
+		return n + "_"
+	}
+	return n
 }
 
 func tupleType(ts []string) string {
